@@ -44,7 +44,7 @@ theorem tempMap_posTemp : TempMap mockSym a64Backend posTemp where
     by_cases h : a = b
     · subst h; simp
     · have : posTemp a ≠ posTemp b := fun e => h (posTemp_inj.1 e)
-      simp [h, this]
+      rw [beq_eq_false_iff_ne.mpr this, beq_eq_false_iff_ne.mpr h]
 
 /-! ## the moves of a tree -/
 
